@@ -550,11 +550,8 @@ pub fn stream_problem<D: Store + Mk>(p: &ParseResult, a: &Accepted<D>) -> Option
             },
             I::MakeList => match data {
                 None => return Some(("no-operand|MakeList".into(), format!("MakeList at {} has no operand", i))),
-                Some(k) => {
-                    if k > a.i1 - a.i0 {
-                        return Some(("makelist-implausible".into(), format!("MakeList {} at {} in a program of {} instructions", k, i, a.i1 - a.i0)));
-                    }
-                }
+                // the operand is a count, not an address: C05 says nothing about it and C06 (operands pending) owns it
+                Some(_) => {}
             },
             I::Invalid => return Some(("invalid-instruction".into(), format!("Invalid instruction at {}", i))),
             _ => {}
@@ -577,7 +574,20 @@ pub fn stream_problem<D: Store + Mk>(p: &ParseResult, a: &Accepted<D>) -> Option
             None => return Some(("missing-jump-entry".into(), format!("jump entry {} unreadable", j))),
             Some(t) => {
                 let nodes = p.get_nodes();
-                let empty_group = |i: Option<usize>| i.and_then(|i| nodes.get(i)).map(|n| n.get_definition() == Df::Group && n.get_right().is_none()).unwrap_or(false);
+                // an empty group, or groups holding nothing but an empty group
+                let empty_group = |i: Option<usize>| {
+                    let mut cur = i;
+                    for _ in 0..=nodes.len() {
+                        match cur.and_then(|i| nodes.get(i)) {
+                            Some(n) if n.get_definition() == Df::Group => match n.get_right() {
+                                None => return true,
+                                r => cur = r,
+                            },
+                            _ => return false,
+                        }
+                    }
+                    false
+                };
                 if t == ilen && nodes.iter().any(|n| n.get_definition() == Df::NestedExpression && empty_group(n.get_right())) {
                     // a branch / expression body that is an empty group emits nothing (root cause named, not the witness)
                     return Some(("jump-target-one-past-end|nested-expression-holding-an-empty-group".into(), format!("jump entry {} -> {} = one past the last instruction: a nested expression whose whole body is an empty group emits nothing", j, t)));
